@@ -100,7 +100,11 @@ def gen_case(rng):
     n = rng.randrange(1, 7)
     if kind == "float":
         xs = [rng.choice(FLOAT_POOL) for _ in range(n)]
-        dt = rng.choice(["float64", "float64", "float32"])
+        dt = rng.choice(["float64", "float64", "float32", "int"])
+        if dt == "int":
+            # every NumPy numeric dtype: whole numbers in an integer array are float values like any other
+            dt = rng.choice(["int64", "int32", "int16", "uint8", "uint32"])
+            xs = [float(rng.choice([0, 1, 7, 100, 255] if dt.startswith("u") else [0, 1, -1, 7, -100, 32767])) for _ in range(n)]
         if dt == "float32":
             xs = [x for x in xs if math.isnan(x) or math.isinf(x) or abs(x) < 3e38] or [0.0]
         # now and then the array is complex (an unsupported type, to be refused): with an imaginary part somewhere or all real
